@@ -199,8 +199,8 @@ pub fn passkey_from_pre(pre: &PreCred) -> Passkey {
         counter: pre.counter,
         extensions: passkey_types::CredentialExtensions {
             hmac_secret: pre.hmac.map(|both| StoredHmacSecret {
-                cred_with_uv: r.bytes(32),
-                cred_without_uv: both.then(|| r.bytes(32)),
+                cred_with_uv: r.bytes(if pre.hmac_len == 0 { 32 } else { usize::from(pre.hmac_len) }),
+                cred_without_uv: both.then(|| r.bytes(if pre.hmac_len == 0 { 32 } else { usize::from(pre.hmac_len) })),
             }),
         },
     }
